@@ -38,6 +38,10 @@ func main() {
 		harness.SeedRunMain(args[1], args[2])
 		return
 	}
+	if len(args) == 1 && args[0] == "panicnilprobe" {
+		harness.PanicNilProbeMain()
+		return
+	}
 	if len(args) == 2 && args[0] == "constructprobe" {
 		harness.ConstructProbeMain(args[1])
 		return
